@@ -11,7 +11,142 @@ def or_operands(e):
 
 
 def check_exists(facts, fn, expr_enum="Expression", op_enum="Operator"):
-    """Returns dict(ok, problems[], leaf (the Action arm body), hidden (variants behind wildcard))."""
+    """`fn` (Expression -> bool) is a correct recursive 'exists over the action nodes', by structural induction whose cases
+    are *evaluated* (vlib/probe.py):
+
+      - a node that is neither an operator nor an action yields false;
+      - an operator node with sub-expressions e1..ek yields r1 || .. || rk for every assignment of booleans ri, where ri is
+        what a recursive call on ei returns (the induction hypothesis: a call of `fn` itself, or of a helper currently
+        being evaluated, with the very same extra arguments, on ei);
+      - an action node yields the per-action value, returned as a table for the caller to compare with the statement.
+
+    Whatever way the function is written (one match, helpers returning the operands, a generic any_action(pred) helper,
+    is_some_and, early returns) only what it computes counts.
+    -> dict(ok, problems, hidden, accounted (crate functions evaluated), action: {variant: [(payload description, value)]})"""
+    import itertools
+    from . import probe as P
+
+    problems = []
+    evars = facts.variants(expr_enum)
+    oinfo = {v["name"]: [norm_ty(f["ty"]) for f in v["fields"]] for v in facts.enum(op_enum)["variants"]}
+    if fn.node["self"] != "&self" or norm_ty(fn.node["output"]) != "bool":
+        problems.append("signature is not (&self) -> bool")
+    methods = {f_.name for f_ in facts.fns.values() if f_.impl is not None and norm_ty(f_.impl["self_ty"]) == expr_enum and not f_.impl.get("trait")}
+    invoked = set()
+
+    def run(selfv, subs=(), assign=()):
+        pr = P.Probe(facts, expr_enum, fn.module)
+        amap = {id(x): v for x, v in zip(subs, assign)}
+
+        def hook(pr_, e, env):
+            recv = pr_.ev(e["recv"], env)
+            if not (isinstance(recv, P.Opq) and id(recv) in amap):
+                return NotImplemented
+            args = [pr_.ev(a, env) for a in e["args"]]
+            if e["m"] == fn.name and not args:
+                return bool(amap[id(recv)])
+            for f_, sv_, av_ in reversed(pr_.frames):
+                if f_.name == e["m"] and f_.impl is not None and norm_ty(f_.impl["self_ty"]) == expr_enum and len(av_) == len(args) and all(a is b_ for a, b_ in zip(args, av_)):
+                    return bool(amap[id(recv)])
+            raise P.NoEval("`.%s(..)` on a sub-expression is not a recursive call with the same arguments" % e["m"])
+
+        def ihook(pr_, f_, sv_, av_):
+            # the same recursion through a function value: holds(e) with holds = Expression::action
+            if isinstance(sv_, P.Opq) and id(sv_) in amap and f_.impl is not None and norm_ty(f_.impl["self_ty"]) == expr_enum:
+                if f_.key == fn.key and not av_:
+                    return bool(amap[id(sv_)])
+                for g_, _, bv_ in reversed(pr_.frames):
+                    if g_.key == f_.key and len(bv_) == len(av_) and all(a is b_ for a, b_ in zip(av_, bv_)):
+                        return bool(amap[id(sv_)])
+                raise P.NoEval("`%s` applied to a sub-expression is not a recursive call with the same arguments" % f_.key)
+            return NotImplemented
+
+        pr.invoke_hook = ihook
+        for m_ in methods:
+            pr.mhooks[m_] = hook
+        try:
+            return pr.invoke(fn, selfv, [])
+        finally:
+            invoked.update(pr.invoked)
+
+    ok_all = True
+    try:
+        # leaves
+        hidden = []
+        for v in evars:
+            if v in ("Operator", "Action"):
+                continue
+            hidden.append(v)
+            r = run(("enum", "%s::%s" % (expr_enum, v), [P.Opq("payload") for _ in facts.variant_fields(expr_enum, v)]))
+            if r is not False:
+                problems.append("a %s node yields %r, not false" % (v, r))
+        # operators
+        for w, ftys in oinfo.items():
+            subs = [P.Opq("sub%d" % i) for i in range(len(ftys))]
+            node = ("enum", "%s::Operator" % expr_enum, [("enum", "%s::%s" % (op_enum, w), list(subs))])
+            for assign in itertools.product((False, True), repeat=len(subs)):
+                try:
+                    r = run(node, subs, assign)
+                except P.NoEval as ex:
+                    problems.append("%s: %s" % (w, ex))
+                    break
+                if r is not any(assign):
+                    problems.append("%s with sub-results %s yields %r, not their disjunction" % (w, list(assign), r))
+                    break
+        # actions
+        ints = {0, 1, 7, 8, 10, 12, 13, 255, 65535}
+        for f_ in facts.fns.values():
+            if not f_.test and tuple(f_.module) == tuple(fn.module):
+                for n_ in find_all(f_.body, lambda n_: n_.get("k") == "lit" and n_.get("t") == "int"):
+                    if 0 <= int(n_["v"]) <= 65535:
+                        ints.add(int(n_["v"]))
+        for f_ in facts.fns.values():
+            if not f_.test and tuple(f_.module) == tuple(fn.module):
+                for n_ in find_all(f_.node, lambda n_: isinstance(n_, dict) and n_.get("k") == "lit" and n_.get("t") == "int"):
+                    if 0 <= int(n_["v"]) <= 65535:
+                        ints.add(int(n_["v"]))
+        ints = sorted(ints)
+        action = {}
+        for a in facts.variants("Action"):
+            ftys = [norm_ty(t) for t in facts.variant_fields("Action", a)]
+            lists = [i for i, t in enumerate(ftys) if t.startswith("Vec<FormatElement")]
+            shapes = [()]
+            if lists:
+                # every kind of format element the predicate could tell apart: each escape (the numbered one with every
+                # number the module's code mentions and some it does not), each directive, an empty and a non-empty literal
+                elems = []
+                for sv in facts.variants("FormatSpecial"):
+                    nf = len(facts.variant_fields("FormatSpecial", sv))
+                    if nf == 0:
+                        elems.append(("enum", "FormatElement::Special", [("enum", "FormatSpecial::%s" % sv, [])]))
+                    else:
+                        for n_ in ints:
+                            elems.append(("enum", "FormatElement::Special", [("enum", "FormatSpecial::%s" % sv, [n_] * nf)]))
+                for fv_ in facts.variants("FormatField"):
+                    ftys_ = [norm_ty(t) for t in facts.variant_fields("FormatField", fv_)]
+                    elems.append(("enum", "FormatElement::Field", [("enum", "FormatField::%s" % fv_, ["n" if t == "char" else "x" for t in ftys_])]))
+                elems += [("enum", "FormatElement::Literal", ["x"]), ("enum", "FormatElement::Literal", [""]), ("enum", "FormatElement::Literal", ["\n"])]
+                shapes = [()] + [(x,) for x in elems] + [(x, y) for x in elems for y in elems]
+            rows = []
+            for sh in shapes:
+                pay = [list(sh) if i in lists else P.Opq("payload") for i in range(len(ftys))]
+                try:
+                    r = run(("enum", "%s::Action" % expr_enum, [("enum", "Action::%s" % a, pay)]))
+                except P.NoEval as ex:
+                    r = "not evaluable: %s" % ex
+                desc = None if not lists else ("empty" if not sh else ("ends in newline" if sh[-1][1] == "FormatElement::Special" and sh[-1][2][0][1] == "FormatSpecial::Newline" else "ends in something else"))
+                if (desc, r) not in rows:
+                    rows.append((desc, r))
+                elif isinstance(r, str):
+                    break
+            action[a] = rows
+    except (P.NoEval, P.Panic) as ex:
+        return dict(ok=None, problems=["not evaluable: %s" % ex], hidden=[], accounted=sorted(invoked | {fn.key}), action={}, leaf=None)
+    return dict(ok=not problems, problems=problems, hidden=hidden, accounted=sorted(invoked | {fn.key}), action=action, leaf=None)
+
+
+def check_exists_syntactic(facts, fn, expr_enum="Expression", op_enum="Operator"):
+    """(kept for the positive control) Returns dict(ok, problems[], leaf (the Action arm body), hidden (variants behind wildcard))."""
     problems = []
     accounted = {fn.key}
     name = fn.name
